@@ -51,7 +51,8 @@ def configs(tier):
             ('CourierClient over fake transport, delay bound 1', 1, rpc)]
   return [('direct handlers, plain protocol, preemption bound 3', 3, plain),
           ('direct handlers, re-init/stop/shutdown scripts, preemption bound 2', 2, scripted),
-          ('CourierClient over fake transport, delay bound 2', 2, rpc)]
+          ('CourierClient over fake transport, delay bound 1 (delay bound 2 '
+           'needs > 10^5 executions of ~600 steps per configuration)', 1, rpc)]
 
 
 def run(ctx):
